@@ -76,6 +76,9 @@ class VOpt(V):
         self.ty = Opt(inner)
 
     def clone(self, memo):
+        from .ty import VRec, VList, VDict
+        if not isinstance(self.val, (VRec, VList, VDict)):
+            return self  # immutable content
         return VOpt(self.isnone, self.val.clone(memo), self.ty.inner)
 
     def __repr__(self):
@@ -143,6 +146,10 @@ class VList(V):
         if id(self) in memo:
             return memo[id(self)]
         c = VList(self.elem, items=None if self.items is None else [], seq=self.seq)
+        if getattr(self, "assoc", False):
+            c.assoc = True
+        if hasattr(self, "origin"):
+            c.origin = self.origin
         memo[id(self)] = c
         if self.items is not None:
             c.items = [x.clone(memo) for x in self.items]
@@ -174,7 +181,10 @@ class VTuple(V):
         self.ty = TupleOf(*[x.ty for x in self.items])
 
     def clone(self, memo):
-        return VTuple([x.clone(memo) for x in self.items])
+        c = VTuple([x.clone(memo) for x in self.items])
+        if hasattr(self, "packed") and all(a is b for a, b in zip(c.items, self.items)):
+            c.packed, c.pty = self.packed, self.pty
+        return c
 
     def __repr__(self):
         return f"VTuple({self.items})"
@@ -380,9 +390,10 @@ class Opt(Ty):
     def sort(self):
         key = ("opt", self.inner.name)
         if key not in _sort_cache:
-            d = z3.Datatype(f"Opt_{_mangle(self.inner.name)}")
-            d.declare("none")
-            d.declare("some", ("the", self.inner.sort()))
+            m = _mangle(self.inner.name)
+            d = z3.Datatype(f"Opt_{m}")
+            d.declare(f"none_{m}")
+            d.declare(f"some_{m}", (f"the_{m}", self.inner.sort()))
             _sort_cache[key] = d.create()
         return _sort_cache[key]
 
@@ -396,17 +407,23 @@ class Opt(Ty):
         if isinstance(self.inner, NodeTy):
             return self.inner.wrap(term)
         s = self.sort()
-        return VOpt(s.is_none(term), self.inner.wrap(s.the(term)), self.inner)
+        v = VOpt(s.recognizer(0)(term), self.inner.wrap(s.accessor(1, 0)(term)), self.inner)
+        v.packed = term
+        return v
 
     def pack(self, v):
         if isinstance(self.inner, NodeTy):
             return self.inner.pack(v)
         s = self.sort()
+        none, some = s.constructor(0)(), s.constructor(1)
         if isinstance(v, VNone):
-            return s.none
+            return none
         if isinstance(v, VOpt):
-            return z3.If(v.isnone, s.none, s.some(self.inner.pack(v.val)))
-        return s.some(self.inner.pack(v))
+            pk = getattr(v, "packed", None)
+            if pk is not None and pk.sort().eq(s):
+                return pk
+            return z3.If(v.isnone, none, some(self.inner.pack(v.val)))
+        return some(self.inner.pack(v))
 
 
 class SeqOf(Ty):
@@ -421,6 +438,8 @@ class SeqOf(Ty):
         return VList(self.elem, seq=term)
 
     def pack(self, v):
+        if isinstance(v, (VAny, VOpt)):
+            v = coerce(v, self)
         if isinstance(v, VTuple):
             v = VList(self.elem, items=list(v.items))
         if isinstance(v, VConst) and isinstance(v.py, (tuple, list)):
@@ -433,6 +452,21 @@ class SeqOf(Ty):
         return v.term()
 
 
+class Assoc(SeqOf):
+    """dict[str, V] seen as an association list in insertion order (keys pairwise distinct is a precondition the
+    contract must state when it matters). Supports .items(), iteration over keys, len()."""
+
+    def __init__(self, valty):
+        SeqOf.__init__(self, TupleOf(Str, valty))
+        self.valty = valty
+        self.name = f"Assoc({valty.name})"
+
+    def wrap(self, term):
+        v = VList(self.elem, seq=term)
+        v.assoc = True
+        return v
+
+
 class TupleOf(Ty):
     def __init__(self, *elems):
         self.elems = list(elems)
@@ -441,8 +475,9 @@ class TupleOf(Ty):
     def sort(self):
         key = ("tuple", self.name)
         if key not in _sort_cache:
-            d = z3.Datatype(f"Tup_{_mangle(self.name)}")
-            d.declare("mk", *[(f"f{i}", e.sort()) for i, e in enumerate(self.elems)])
+            m = _mangle(self.name)
+            d = z3.Datatype(f"Tup_{m}")
+            d.declare(f"mk_{m}", *[(f"f{i}_{m}", e.sort()) for i, e in enumerate(self.elems)])
             _sort_cache[key] = d.create()
         return _sort_cache[key]
 
@@ -451,7 +486,10 @@ class TupleOf(Ty):
 
     def wrap(self, term):
         s = self.sort()
-        return VTuple([e.wrap(s.accessor(0, i)(term)) for i, e in enumerate(self.elems)])
+        v = VTuple([e.wrap(s.accessor(0, i)(term)) for i, e in enumerate(self.elems)])
+        v.packed = term
+        v.pty = self
+        return v
 
     def pack(self, v):
         if isinstance(v, VList) and v.items is not None:
@@ -459,33 +497,38 @@ class TupleOf(Ty):
         if not isinstance(v, VTuple) or len(v.items) != len(self.elems):
             raise Unsupported(f"cannot pack {v} as {self.name}")
         s = self.sort()
+        pk = getattr(v, "packed", None)
+        if pk is not None and pk.sort().eq(s):
+            return pk
         return s.constructor(0)(*[e.pack(x) for e, x in zip(self.elems, v.items)])
 
 
 class Rec(Ty):
     """Record with named, typed fields. `pycls` ("module:qualname") lets replay rebuild the real object."""
 
-    def __init__(self, name, pycls=None, as_dict=False, cls=None, closed=False, **fields):
+    def __init__(self, name, pycls=None, as_dict=False, cls=None, closed=False, optkeys=False, **fields):
         self.name = name
         self.fields = dict(fields)
         self.pycls = pycls
         self.as_dict = as_dict
         self.cls = cls  # "relpath::Class": methods and class constants are resolved there
         self.closed = closed
+        self.optkeys = optkeys  # as_dict only: a field of type Opt(T) that is None means the KEY IS ABSENT
 
     def extend(self, name=None, **more):
         f = dict(self.fields)
         f.update(more)
-        return Rec(name or self.name, pycls=self.pycls, as_dict=self.as_dict, cls=self.cls, closed=self.closed, **f)
+        return Rec(name or self.name, pycls=self.pycls, as_dict=self.as_dict, cls=self.cls, closed=self.closed, optkeys=self.optkeys, **f)
 
     def with_cls(self, cls):
-        return Rec(self.name, pycls=self.pycls, as_dict=self.as_dict, cls=cls, closed=self.closed, **self.fields)
+        return Rec(self.name, pycls=self.pycls, as_dict=self.as_dict, cls=cls, closed=self.closed, optkeys=self.optkeys, **self.fields)
 
     def sort(self):
         key = ("rec", self.name, tuple(sorted((k, t.name) for k, t in self.fields.items())))
         if key not in _sort_cache:
-            d = z3.Datatype(f"Rec_{_mangle(self.name)}_{len(_sort_cache)}")
-            d.declare("mk", *[(k, t.sort()) for k, t in self.fields.items()])
+            m = f"{_mangle(self.name)}_{len(_sort_cache)}"
+            d = z3.Datatype(f"Rec_{m}")
+            d.declare(f"mkrec_{m}", *[(f"{k}_{m}", t.sort()) for k, t in self.fields.items()])
             _sort_cache[key] = d.create()
         return _sort_cache[key]
 
@@ -517,6 +560,8 @@ class Opaque(Ty):
         return VOpaque(term, self)
 
     def pack(self, v):
+        if isinstance(v, VOpt):
+            v = v.val
         if not isinstance(v, VOpaque):
             raise Unsupported(f"cannot pack {v} as {self.name}")
         return v.t
@@ -537,6 +582,7 @@ def _make_val():
     d.declare("LS", ("lsv", z3.SeqSort(z3.StringSort())))
     d.declare("LI", ("liv", z3.SeqSort(z3.IntSort())))
     d.declare("D", ("dv", z3.ArraySort(z3.StringSort(), z3.DatatypeSort("Val"))))
+    d.declare("LV", ("lvv", z3.SeqSort(z3.DatatypeSort("Val"))))
     return d.create()
 
 
@@ -568,6 +614,8 @@ class _Dict(Ty):
         return VDict(term)
 
     def pack(self, v):
+        if isinstance(v, VOpt):
+            v = v.val
         if isinstance(v, VAny):
             return ValSort.dv(v.t)
         if not isinstance(v, VDict):
@@ -599,6 +647,11 @@ def to_val(v: V):
             return ValSort.LS(VList(Str, items=v.items, seq=v.seq).term() if v.items is not None else v.seq)
         if v.elem is Int or (v.items is not None and all(isinstance(x, VInt) for x in v.items)):
             return ValSort.LI(VList(Int, items=v.items, seq=v.seq).term() if v.items is not None else v.seq)
+    if isinstance(v, VList) and (v.elem is Any or (v.items is not None)):
+        if v.items is not None:
+            parts = [z3.Unit(to_val(x)) for x in v.items]
+            return ValSort.LV(z3.Concat(*parts) if len(parts) > 1 else (parts[0] if parts else z3.Empty(z3.SeqSort(ValSort))))
+        return ValSort.LV(v.seq)
     if isinstance(v, VConst) and isinstance(v.py, dict):
         t = EmptyDict
         for k, x in v.py.items():
@@ -634,6 +687,8 @@ def lift(py) -> V:
 
 def coerce(v: V, ty: Ty) -> V:
     """Coerce v to type ty where Python would accept it (Any -> typed with no check here)."""
+    if isinstance(v, VOpt) and not isinstance(ty, Opt) and ty is not Any:
+        v = v.val  # guarded by the caller (spec implications / safety obligations at the use site)
     if ty is Int:
         if isinstance(v, VInt):
             return v
@@ -663,6 +718,8 @@ def coerce(v: V, ty: Ty) -> V:
             return VList(Str, seq=ValSort.lsv(v.t))
         if isinstance(v, VAny) and ty.elem is Int:
             return VList(Int, seq=ValSort.liv(v.t))
+        if isinstance(v, VAny) and ty.elem is Any:
+            return VList(Any, seq=ValSort.lvv(v.t))
     elif isinstance(ty, Opt):
         return v
     else:
